@@ -143,37 +143,39 @@ type task struct {
 	condWake  bool
 	selCases  []SelCase
 	selForced int
-	stall     int // scheduling decisions this task still sits out (if others can run)
+	stall     int  // scheduling decisions this task still sits out (if others can run)
+	stepAside bool // voluntary yield: sits out the next decision if others can run
 }
 
 // Sim is the state of the running simulation.
 type Sim struct {
-	cfg       Config
-	gen       uint64
-	tasks     []*task
-	cur       *task
-	rng       splitmix
-	tape      []uint32
-	tapePos   int
-	replay    bool
-	steps     int
-	switches  int
-	seq       int64
-	hash      uint64
-	events    []Event
-	objHash   map[int]uint64
-	nextOrd   int
-	chans     map[unsafe.Pointer]*chanState
-	shadow    map[unsafe.Pointer]*shadowVar
-	atomVC    map[unsafe.Pointer]vclock
-	races     []Race
-	raceSeen  map[string]bool
-	probes    map[string]int
-	done      chan struct{}
-	abortDone chan struct{}
-	end       string
-	aborting  bool
-	strategy  int
+	cfg         Config
+	gen         uint64
+	tasks       []*task
+	cur         *task
+	rng         splitmix
+	tape        []uint32
+	tapePos     int
+	replay      bool
+	steps       int
+	switches    int
+	seq         int64
+	hash        uint64
+	events      []Event
+	objHash     map[int]uint64
+	nextOrd     int
+	chans       map[unsafe.Pointer]*chanState
+	shadow      map[unsafe.Pointer]*shadowVar
+	atomVC      map[unsafe.Pointer]vclock
+	races       []Race
+	raceSeen    map[string]bool
+	probes      map[string]int
+	done        chan struct{}
+	abortDone   chan struct{}
+	end         string
+	aborting    bool
+	strategy    int
+	consecutive int // decisions in a row that went to the same task
 	// strategy state
 	pctChange []int
 	pctLow    int
@@ -444,11 +446,12 @@ func (s *Sim) schedule(from *task, park bool) {
 			enabled = append(enabled, t)
 		}
 	}
-	// stalled tasks sit out while anybody else can run
+	// stalled tasks, and the task that just yielded voluntarily, sit out while
+	// anybody else can run
 	if len(enabled) > 1 {
 		var awake []*task
 		for _, t := range enabled {
-			if t.stall <= 0 {
+			if t.stall <= 0 && !(t == from && t.stepAside) {
 				awake = append(awake, t)
 			}
 		}
@@ -461,6 +464,9 @@ func (s *Sim) schedule(from *task, park bool) {
 		if t.stall > 0 {
 			t.stall--
 		}
+	}
+	if from != nil {
+		from.stepAside = false
 	}
 	if len(enabled) == 0 {
 		if unfinished == 0 {
@@ -498,8 +504,22 @@ func (s *Sim) schedule(from *task, park bool) {
 			}
 		}
 	}
-	idx := s.draw(len(enabled), func() int { return s.pickIndex(enabled, curEnabled) })
+	idx := s.draw(len(enabled), func() int {
+		i := s.pickIndex(enabled, curEnabled)
+		// fairness guard: no strategy may run one task for more than 1000
+		// consecutive decisions while others could run (a loop that polls under
+		// a lock terminates under Go's preemptive scheduler, so it must here)
+		if len(enabled) > 1 && enabled[i] == s.cur && s.consecutive > 1000 {
+			i = (i + 1) % len(enabled)
+		}
+		return i
+	})
 	next := enabled[idx]
+	if next == s.cur {
+		s.consecutive++
+	} else {
+		s.consecutive = 0
+	}
 	if curEnabled && idx != 0 {
 		s.probes["preemptions"]++
 	}
@@ -629,14 +649,34 @@ func Yield() {
 	s.yield(t)
 }
 
+// Gosched stands in for runtime.Gosched in instrumented code: a scheduling
+// point at which the caller steps aside - if anybody else can run, somebody
+// else does.  (Without this a polling loop that yields on every iteration would
+// livelock under the priority-based and the fixed-order strategies, although it
+// terminates under any fair scheduler.)
+func Gosched() {
+	s := S
+	if s == nil {
+		runtime.Gosched()
+		return
+	}
+	if s.aborting {
+		return
+	}
+	t := s.cur
+	t.pend = op{kind: OpYield}
+	t.stepAside = true
+	s.yield(t)
+}
+
 // Sleep stands in for time.Sleep: the system has no clock semantics, so a
-// sleep is a scheduling point of unknown length.
+// sleep is a scheduling point of unknown length at which the caller steps aside.
 func Sleep(d time.Duration) {
 	if S == nil {
 		time.Sleep(d)
 		return
 	}
-	Yield()
+	Gosched()
 }
 
 // Seq returns the next value of the global event sequence number.  Histories
